@@ -16,7 +16,7 @@ func (w *Worker) callBuiltin(fn *ssa.Builtin, args []Value) Value {
 		if len(args) == 1 {
 			return args[0]
 		}
-		s := args[0].(SliceV)
+		s := w.concGeom(args[0].(SliceV))
 		var add []Value
 		switch t := args[1].(type) {
 		case StrV:
@@ -24,6 +24,7 @@ func (w *Worker) callBuiltin(fn *ssa.Builtin, args []Value) Value {
 				add = append(add, b)
 			}
 		case SliceV:
+			t = w.concGeom(t)
 			n := w.concInt(t.Len, "append source length")
 			for i := 0; i < n; i++ {
 				add = append(add, copyVal(t.B.Cells[t.Off+i]))
@@ -53,7 +54,7 @@ func (w *Worker) callBuiltin(fn *ssa.Builtin, args []Value) Value {
 		}
 		return ns
 	case "copy":
-		dst := args[0].(SliceV)
+		dst := w.concGeom(args[0].(SliceV))
 		var src []Value
 		var nsrc *Term
 		switch t := args[1].(type) {
@@ -68,6 +69,7 @@ func (w *Worker) callBuiltin(fn *ssa.Builtin, args []Value) Value {
 		n := tt.Ite(tt.BVSlt(nsrc, dst.Len), nsrc, dst.Len)
 		nc := w.concInt(n, "copy length")
 		if s, ok := args[1].(SliceV); ok {
+			s = w.concGeom(s)
 			// memmove semantics
 			tmp := make([]Value, nc)
 			for i := 0; i < nc; i++ {
@@ -100,6 +102,9 @@ func (w *Worker) callBuiltin(fn *ssa.Builtin, args []Value) Value {
 	case "cap":
 		switch x := args[0].(type) {
 		case SliceV:
+			if x.SOff != nil {
+				return x.SCap
+			}
 			return tt.BV(64, uint64(x.Cap))
 		case ArrayV:
 			return tt.BV(64, uint64(len(x)))
@@ -124,6 +129,7 @@ func (w *Worker) callBuiltin(fn *ssa.Builtin, args []Value) Value {
 				x.keys = nil
 			}
 		case SliceV:
+			x = w.concGeom(x)
 			n := w.concInt(x.Len, "clear length")
 			for i := 0; i < n; i++ {
 				w.storeCell(&x.B.Cells[x.Off+i], w.zero(x.B.Elem))
@@ -294,6 +300,11 @@ func (w *Worker) external(fn *ssa.Function, args []Value) (Value, bool) {
 		if fn.Name() == "Size" {
 			iv := args[0].(IfaceV)
 			return tt.BV(64, uint64(int64(w.binarySize(iv.T, iv.V)))), true
+		}
+		if fn.Name() == "Read" || fn.Name() == "Write" {
+			if r, ok := w.binaryReadWrite(fn, args); ok {
+				return r, true
+			}
 		}
 	case "errors":
 		if fn.Name() == "New" {
@@ -640,4 +651,180 @@ func (w *Worker) binarySize(t types.Type, v Value) int {
 		return w.binarySize(u.Elem(), nil)
 	}
 	return -1
+}
+
+// concGeom makes the geometry (offset, capacity) of a slice concrete, forking
+// over the feasible values when it is symbolic.
+func (w *Worker) concGeom(s SliceV) SliceV {
+	if s.SOff == nil {
+		return s
+	}
+	off := w.concInt(s.SOff, "slice offset")
+	cp := w.concInt(s.SCap, "slice capacity")
+	return SliceV{B: s.B, Off: off, Cap: cp, Len: s.Len, Nil: s.Nil}
+}
+
+// binaryReadWrite models encoding/binary.Read / Write for (pointers to)
+// fixed-size structs of integer, bool and float fields without reflection.
+// The reader's / writer's own methods are still interpreted.
+func (w *Worker) binaryReadWrite(fn *ssa.Function, args []Value) (Value, bool) {
+	tt := w.tt
+	rw, ok0 := args[0].(IfaceV)
+	ord, ok1 := args[1].(IfaceV)
+	data, ok2 := args[2].(IfaceV)
+	if !ok0 || !ok1 || !ok2 || data.T == nil || ord.T == nil || rw.T == nil {
+		return nil, false
+	}
+	little := strings.Contains(ord.T.String(), "littleEndian")
+	if !little && !strings.Contains(ord.T.String(), "bigEndian") {
+		return nil, false
+	}
+	isRead := fn.Name() == "Read"
+	var st *types.Struct
+	var cells StructV
+	switch t := data.T.Underlying().(type) {
+	case *types.Pointer:
+		s, ok := t.Elem().Underlying().(*types.Struct)
+		if !ok {
+			return nil, false
+		}
+		st = s
+		p := data.V.(Ptr)
+		if p.IsNil() {
+			return nil, false
+		}
+		cells = (*p.Slot).(StructV)
+	case *types.Struct:
+		if isRead {
+			return nil, false
+		}
+		st = t
+		cells = data.V.(StructV)
+	default:
+		return nil, false
+	}
+	n := w.binarySize(st, nil)
+	if n < 0 {
+		return nil, false
+	}
+	for i := 0; i < st.NumFields(); i++ {
+		if _, ok := st.Field(i).Type().Underlying().(*types.Basic); !ok {
+			return nil, false
+		}
+	}
+	w.stats.Stubs["encoding/binary."+fn.Name()+" on a fixed-size struct is modelled field by field (no reflection)"]++
+	byteT := types.Typ[types.Uint8]
+	buf := w.newSlice(byteT, n, n)
+	if isRead {
+		ioPkg := w.ex.prog.ImportedPackage("io")
+		if ioPkg == nil || ioPkg.Func("ReadFull") == nil {
+			return nil, false
+		}
+		res := w.callFunction(ioPkg.Func("ReadFull"), []Value{rw, buf}, nil).(TupleV)
+		if e := res[1].(IfaceV); e.T != nil {
+			return e, true
+		}
+		off := 0
+		for i := 0; i < st.NumFields(); i++ {
+			bt := st.Field(i).Type().Underlying().(*types.Basic)
+			sz := w.binarySize(bt, nil)
+			var v *Term
+			for k := 0; k < sz; k++ {
+				var b *Term
+				if little {
+					b = buf.B.Cells[off+sz-1-k].(*Term)
+				} else {
+					b = buf.B.Cells[off+k].(*Term)
+				}
+				if v == nil {
+					v = b
+				} else {
+					v = tt.BVConcat(v, b)
+				}
+			}
+			off += sz
+			if st.Field(i).Name() == "_" {
+				continue
+			}
+			var fv Value = v
+			info := bt.Info()
+			switch {
+			case info&types.IsBoolean != 0:
+				fv = tt.Not(tt.Eq(v, tt.BV(8, 0)))
+			case info&types.IsFloat != 0:
+				if v.IsConst() {
+					if sz == 4 {
+						fv = w.fconst(true, float64(float32frombits(uint32(v.U))))
+					} else {
+						fv = w.fconst(false, float64frombits(v.U))
+					}
+				} else if w.isF() {
+					fv = w.fpFromBits(v, sz*8)
+				} else {
+					panic(unsupported("binary.Read of symbolic float bits in the real model"))
+				}
+			case info&types.IsComplex != 0:
+				return nil, false
+			}
+			w.storeInto(&cells[i], fv)
+		}
+		return IfaceV{}, true
+	}
+	// Write
+	off := 0
+	for i := 0; i < st.NumFields(); i++ {
+		bt := st.Field(i).Type().Underlying().(*types.Basic)
+		sz := w.binarySize(bt, nil)
+		var v *Term
+		info := bt.Info()
+		switch {
+		case st.Field(i).Name() == "_":
+			v = tt.BV(sz*8, 0)
+		case info&types.IsBoolean != 0:
+			v = tt.Ite(cells[i].(*Term), tt.BV(8, 1), tt.BV(8, 0))
+		case info&types.IsFloat != 0:
+			f := cells[i].(*Term)
+			if f.IsConst() {
+				if sz == 4 {
+					v = tt.BV(32, uint64(math.Float32bits(float32(f.F))))
+				} else {
+					v = tt.BV(64, math.Float64bits(f.F))
+				}
+			} else if w.isF() {
+				v = w.fpToBits(f)
+			} else {
+				panic(unsupported("binary.Write of a symbolic real"))
+			}
+		case info&types.IsComplex != 0:
+			return nil, false
+		default:
+			v = cells[i].(*Term)
+		}
+		for k := 0; k < sz; k++ {
+			b := tt.BVExtract(v, 8*k+7, 8*k)
+			if little {
+				buf.B.Cells[off+k] = b
+			} else {
+				buf.B.Cells[off+sz-1-k] = b
+			}
+		}
+		off += sz
+	}
+	// w.Write(buf)
+	wt := fn.Signature.Params().At(0).Type().Underlying().(*types.Interface)
+	var wm *types.Func
+	for i := 0; i < wt.NumMethods(); i++ {
+		if wt.Method(i).Name() == "Write" {
+			wm = wt.Method(i)
+		}
+	}
+	if wm == nil {
+		return nil, false
+	}
+	m := w.lookupMethod(rw.T, wm)
+	if m == nil {
+		return nil, false
+	}
+	res := w.callFunction(m, []Value{rw.V, buf}, nil).(TupleV)
+	return res[1], true
 }
